@@ -56,9 +56,25 @@ def draw(nf_ref, consistent=True, break_quark=None):
     return vals, scales
 
 
+def own_evolve(m2, q2, sc, masses, ratios, xif2, q2_to, nf, nf_to):
+    """independent bookkeeping of the mass path: patch changes at m_h^2 x ratio, decoupling factor of the MASS squared; kernels and coefficients are the real ones"""
+    T_ = np.array(masses) * np.array(ratios)
+    up = nf_to > nf
+    while nf != nf_to:
+        k = nf - 3 if up else nf - 4
+        wall = T_[k]
+        m2 *= msbar_masses.ker_dispatcher(wall, q2, sc, xif2, nf) ** 2
+        c = msbar_masses.compute_matching_coeffs_up(nf) if up else msbar_masses.compute_matching_coeffs_down(nf - 1)
+        a = sc.a(wall * xif2, nf + 1 if up else nf)[0]
+        L = np.log(ratios[k])
+        m2 *= (1.0 + sum(a**p * L**l * c[p, l] for p in range(1, sc.order[0]) for l in range(p + 1))) ** 2
+        q2, nf = wall, nf + (1 if up else -1)
+    return m2 * msbar_masses.ker_dispatcher(q2_to, q2, sc, xif2, nf) ** 2
+
+
 @deal.ensure(lambda inp, result: result == [], message="MSbar masses are not sorted fixed points")
 def fixed_points(inp):
-    vals, scales, nf_ref, order, method, ratios, xif = inp
+    vals, scales, nf_ref, order, method, ratios, xif, *independent = inp
     ci = CouplingsInfo.from_dict(dict(alphas=ALPHAS[nf_ref], alphaem=0.007496, ref=(QREF[nf_ref], nf_ref), em_running=False))
     mref = HeavyQuarkMasses([QuarkMassRef([v, s]) for v, s in zip(vals, scales)])
     with warnings.catch_warnings():
@@ -83,7 +99,10 @@ def fixed_points(inp):
             nf_scale = 3 + int(np.sum(scales[i] ** 2 > thr))      # e.g. the top mass given at a scale below m_b: the running crosses the lighter thresholds
         with warnings.catch_warnings():
             warnings.simplefilter("ignore")
-            back = msbar_masses.evolve(vals[i] ** 2, scales[i] ** 2, sc, ratios, xif**2, m2, nf_ref=nf_scale, nf_to=nf_patch)
+            if independent:
+                back = own_evolve(vals[i] ** 2, scales[i] ** 2, sc, res, ratios, xif**2, m2, nf_scale, nf_patch)
+            else:
+                back = msbar_masses.evolve(vals[i] ** 2, scales[i] ** 2, sc, ratios, xif**2, m2, nf_ref=nf_scale, nf_to=nf_patch)
         if abs(back - m2) > 1e-5 * m2:
             bad.append(f"quark {i}: m(m) = {back**0.5:.8g} but m = {m2**0.5:.8g} (relative {(back - m2) / m2:.2e})")
     if bad:
@@ -123,6 +142,19 @@ def _main():
                     emit(name, True)
                 except Exception as e:
                     emit(name, False, f"{type(e).__name__}: {str(e)[:300]}")
+    # the same crossings checked against an independent bookkeeping of the mass path (thresholds at m_h^2 x ratio, decoupling factor of the mass squared), also with
+    # matching ratios and xif different from one
+    for nf_ref, quark, scale in ((4, 2, 3.0), (3, 1, 1.25)):
+        for order in ((2, 0), (3, 0), (4, 0)):
+            for ratios, xif in (([1.0, 1.0, 1.0], 1.0), ([1.0, 1.5, 1.2], 1.0), ([1.0, 1.0, 1.0], 1.4)):
+                vals, scales = draw(nf_ref)
+                scales[quark] = scale
+                name = f"C18.bounded.independent_mass_path[nfref={nf_ref},quark={quark},scale={scale},order={order},ratios={ratios},xif={xif}]"
+                try:
+                    fixed_points((vals, scales, nf_ref, order, CouplingEvolutionMethod.EXACT, ratios, xif, True))
+                    emit(name, True, fn="eko.msbar_masses:evolve")
+                except Exception as e:
+                    emit(name, False, f"{type(e).__name__}: {str(e)[:300]}", fn="eko.msbar_masses:evolve")
     # inconsistent inputs must be refused with ValueError
     for nf_ref in (3, 4, 5, 6):
         for q in (0, 1, 2):
